@@ -51,6 +51,16 @@ build_plain() {
   (cd "$SCRATCH/h" && go build -o "$SCRATCH/vharness" . ) || die "harness build failed (does /repo compile?)"
 }
 
+# second binary built WITHOUT assembly support (for C11's asm/noasm clause)
+build_noasm() {
+  local n="$SCRATCH/n"
+  mkdir -p "$n"
+  cp "$VERIF/noasm/main.go" "$VERIF/harness/walk.go" "$n/"
+  sed -e 's/^module vh$/module vn/' "$SCRATCH/h/go.mod" > "$n/go.mod"
+  cp "$REPO/go.sum" "$n/go.sum"
+  (cd "$n" && go build -tags noasm -o "$SCRATCH/noasmread" . ) || die "noasm reader build failed"
+}
+
 src_id() {
   (cd "$REPO" && { git rev-parse --short HEAD 2>/dev/null; git status --porcelain 2>/dev/null | grep -v '^??' | sha256sum | cut -c1-8; } | tr '\n' '+' | sed 's/+$//')
 }
@@ -60,12 +70,19 @@ case "$cmd" in
   setup)
     # build once to warm the Go build cache (plain, noasm, race variants are added as the checks need them)
     build_plain
+    build_noasm
     "$SCRATCH/vharness" selftest || die "oracle self-test failed"
     echo "setup ok"
     ;;
   replay)
     build_plain
     "$SCRATCH/vharness" replay "$2"
+    exit $?
+    ;;
+  C11)
+    build_plain
+    build_noasm
+    VERIF_NOASM_BIN="$SCRATCH/noasmread" "$SCRATCH/vharness" "$cmd" "$tier"
     exit $?
     ;;
   C[0-9][0-9])
